@@ -5,7 +5,7 @@ from __future__ import annotations
 
 import ast
 
-from ..absval import EnumSym, Interp, Obj, Sym, Unknown, enumerate_paths
+from ..absval import EnumSym, Interp, Obj, RaiseSignal, Sym, Unknown, enumerate_paths
 from ..flow import path_condition
 from ..model import AnchorMissing, Func, Undecided, dotted, norm, walk_no_nested
 from ..report import Ctx
@@ -52,6 +52,25 @@ def fitting_uint_table(ctx: Ctx, rule="R05.4"):
         ctx.undecided(rule + ".floor", f, f.node, "floor:" + rule, f"{rows} boundary rows evaluated")
 
 
+def new_approximator(prog, cls, backend):
+    """An approximator built by its own constructor (decorators included) with the given backend; the
+    constructor takes the backend as its only parameter, whatever that is called."""
+    init = cls.lookup("__init__")
+    if init is None:
+        return Obj(cls, {})
+    ip = [p.name for p in init.call_params]
+    if len(ip) != 1:
+        raise AnchorMissing(f"{init.qual}: parameters {ip} (expected the backend only)")
+    host = ResultInterp(prog, init, {ip[0]: backend}, self_obj=Obj(cls, {}))
+    try:
+        o = host.construct(cls, [], {ip[0]: backend}, init.node)
+    except RaiseSignal as e:
+        raise Undecided(f"{init.qual} raises {e.exc_name} for backend {backend!r}")
+    if host.root.taken or not isinstance(o, Obj):
+        raise Undecided(f"{init.qual} not evaluable")
+    return o
+
+
 class ApproxInterp(ArrInterp):
     def __init__(self, *a, **kw):
         super().__init__(*a, **kw)
@@ -64,7 +83,8 @@ class ApproxInterp(ArrInterp):
         r = self.root
         if self.prog.is_anchor(name, "_functionals:_connected_components"):
             arr = args[0] if args else kwargs.get("array")
-            be = args[1] if len(args) > 1 else kwargs.get("cca_backend")
+            ccf = self.prog.func("_functionals:_connected_components")
+            be = args[1] if len(args) > 1 else kwargs.get(ccf.call_params[1].name if len(ccf.call_params) > 1 else "cca_backend")
             r.cca_calls.append((arr, be, node))
             side = arr.side if isinstance(arr, AArr) else "?"
             out = AArr("CC_" + side, True)
@@ -129,15 +149,7 @@ def check_dispatch(ctx: Ctx):
             for pe, re_ in ((False, False), (True, False), (False, True)):
                 if (pe or re_) and ndim not in (2, 3):
                     continue
-                self_obj = Obj(cls, {})
-                init = cls.lookup("__init__")
-                if init is not None:
-                    ip = [p.name for p in init.call_params]
-                    if ip != ["cca_backend"]:
-                        raise AnchorMissing(f"{init.qual}: parameters {ip}")
-                    o0 = ResultInterp(prog, init, {"cca_backend": EnumSym(be_cls, given) if given else None}, self_obj=self_obj).run()
-                    if o0.kind == "raise" or o0.decisions:
-                        raise Undecided(f"{init.qual} not evaluable")
+                self_obj = new_approximator(prog, cls, EnumSym(be_cls, given) if given else None)
                 pred, ref = AArr("PRED", False), AArr("REF", False)
                 pair = Obj(spcls, {"n_dim": ndim, "_prediction_arr": pred, "_reference_arr": ref, "_pred_labels": () if pe else (Sym("a"),), "_ref_labels": () if re_ else (Sym("b"), Sym("c"))})
                 pp = next((p.name for p in f.call_params if "pair" in p.name.lower()), None)
@@ -212,10 +224,7 @@ def check_dispatch(ctx: Ctx):
     hist = 0
     for given in [None] + members:
         for nd1, nd2 in ((3, 2), (2, 3), (3, 1), (1, 4)):
-            self_obj = Obj(cls, {})
-            init = cls.lookup("__init__")
-            if init is not None:
-                ResultInterp(prog, init, {"cca_backend": EnumSym(be_cls, given) if given else None}, self_obj=self_obj).run()
+            self_obj = new_approximator(prog, cls, EnumSym(be_cls, given) if given else None)
             seen = []
             okrun = True
             for nd in (nd1, nd2):
@@ -467,7 +476,7 @@ def check_semantic_dtype(ctx: Ctx):
             for p in f.call_params:
                 if "pair" in p.name.lower():
                     args[p.name] = pair
-            it = SemInterp(prog, f, {**args, f.self_name: Obj(acls, {"cca_backend": None})}, prefix=prefix)
+            it = SemInterp(prog, f, {**args, f.self_name: new_approximator(prog, acls, None)}, prefix=prefix)
             it.root.fit_args, it.root.set_dtype, it.root.nonneg_tested = [], [], []
             ni = {fit.qual}
             sd = spcls.lookup("set_dtype")
